@@ -165,9 +165,17 @@ Definition is_ext (o : kop) : bool := match o with KSetFlagExt _ => true | _ => 
 Definition added_cond (s : stk) (w : nat) : Prop :=
   match w with 0 => 0 < length (els s) | S th => th < length (els s) end.
 
+(* the mutex is held between two steps only by the one PopOrWait caller that is inside its callback (kev) or between
+   the callback and Wait (kchk), and only over an empty stack *)
 Definition stk_inv (s : stk) : Prop :=
-  match kmx s with None => kchk s = [] | Some t => kchk s = [t] /\ els s = [] end /\
-  (flag s = false -> 0 < length (kchk s) -> 0 < length (kfs s)) /\
+  krel s = false /\
+  match kmx s with
+  | None => kchk s = [] /\ kev s = []
+  | Some t => (kchk s = [t] /\ kev s = [] \/ kchk s = [] /\ exists v, kev s = [(t, v)]) /\ els s = []
+  end /\
+  (* who found the condition true (about to Wait, or the callback has read true and has not returned yet) and the
+     condition is false by now: the SignalShutdown that follows the change has not passed the mutex yet *)
+  (flag s = false -> 0 < length (kchk s) \/ (exists t, kev s = [(t, Some true)]) -> 0 < length (kfs s)) /\
   Forall (fun p => added_cond s (snd p) -> 0 < length (oa s)) (aq s) /\
   Forall (fun p => snd p = 0 -> flag s = false -> 0 < length (kfs s) + length (oa s)) (aq s) /\
   Forall (fun p => length (els s) < snd p -> 0 < length (ox s)) (xq s).
@@ -193,36 +201,72 @@ Ltac fa :=
       solve [eapply Forall_impl; [|exact H]; intros [? ?]; intros; ksolve]
   end.
 
-Ltac kfin := try solve [ksolve].
+Ltac kev_done :=
+  solve [ right; split; eauto | left; split; auto
+        | intros ? [?|[? ?]]; [simpl in *; lia|simpl in *; congruence]
+        | intros ? [?|[? ?]]; simpl in *; rewrite ?app_length; simpl; lia
+        | intros ? [?|[? ?]]; [simpl in *; lia|discriminate] ].
+Ltac kfin := try solve [ksolve | kev_done].
 
-Lemma free_kchk s : stk_inv s -> mx_free s = true -> kmx s = None /\ kchk s = [].
-Proof. unfold stk_inv, mx_free. intros [K _]. destruct (kmx s); [discriminate|]. auto. Qed.
+Lemma free_kchk s : stk_inv s -> mx_free s = true -> kmx s = None /\ kchk s = [] /\ kev s = [].
+Proof. unfold stk_inv, mx_free. intros (_ & K & _). destruct (kmx s); [discriminate|]. destruct K; auto. Qed.
 
 Lemma popwait_try_inv t s s' r :
   stk_inv s -> kmx s = None -> popwait_try t s = (s', r) -> stk_inv s'.
 Proof.
   intros I M H. unfold popwait_try in H. unfold stk_inv in I. rewrite M in I.
-  destruct I as (K0 & K1 & A1 & A2 & A3).
+  destruct I as (R & [K0 K0'] & K1 & A1 & A2 & A3).
   destruct (els s) as [|x rest] eqn:E.
-  - destruct (flag s) eqn:F; inversion H; subst; clear H; unfold stk_inv; simpl; rewrite ?E, ?K0 in *; simpl in *.
-    + repeat split; auto; try congruence; try fa; kfin.
-    + repeat split; auto; try fa; kfin.
-  - inversion H; subst; clear H; unfold stk_inv; simpl; rewrite ?E in *; simpl in *.
+  - rewrite R in H. inversion H; subst; clear H; unfold stk_inv; simpl; rewrite ?E, ?K0, ?K0' in *; simpl in *.
     repeat split; auto; try fa; kfin.
+  - inversion H; subst; clear H; unfold stk_inv; simpl; rewrite ?E, ?K0, ?K0' in *; simpl in *.
+    repeat split; auto; try fa; kfin.
+Qed.
+
+(* only the thread that holds the mutex can be inside the callback *)
+Lemma in_callback t s v :
+  stk_inv s -> eget t (kev s) = Some v -> kmx s = Some t /\ kchk s = [] /\ kev s = [(t, v)] /\ els s = [].
+Proof.
+  intros I C. unfold stk_inv in I. destruct I as (R & K0 & _).
+  destruct (kmx s) as [u|]; [|destruct K0 as [_ K0]; rewrite K0 in C; discriminate].
+  destruct K0 as [[[K0 K0']|[K0 [w K0']]] E]; rewrite K0' in C; simpl in C; [discriminate|].
+  destruct (u =? t) eqn:Q; [|discriminate]. apply Nat.eqb_eq in Q. subst u. inversion C; subst. auto.
+Qed.
+
+(* the callback reads the flag *)
+Lemma popwait_read_inv t s s' r :
+  stk_inv s -> eget t (kev s) = Some None -> popwait_read t s = (s', r) -> stk_inv s'.
+Proof.
+  intros I C H. destruct (in_callback _ _ _ I C) as (M & K & V & E).
+  unfold popwait_read in H. unfold stk_inv in I. rewrite M in I. destruct I as (R & K0 & K1 & A1 & A2 & A3).
+  inversion H; subst; clear H; unfold stk_inv; simpl. rewrite M, K, V, E in *. simpl in *. rewrite Nat.eqb_refl.
+  repeat split; auto; try fa; kfin.
+Qed.
+
+(* the callback returns what it read *)
+Lemma popwait_eval_inv t b s s' r :
+  stk_inv s -> eget t (kev s) = Some (Some b) -> popwait_eval t b s = (s', r) -> stk_inv s'.
+Proof.
+  intros I C H. destruct (in_callback _ _ _ I C) as (M & K & V & E).
+  unfold popwait_eval in H. unfold stk_inv in I. rewrite M in I. destruct I as (R & K0 & K1 & A1 & A2 & A3).
+  destruct b; inversion H; subst; clear H; unfold stk_inv; simpl; rewrite ?M, ?K, ?V, ?E in *; simpl in *;
+    rewrite ?Nat.eqb_refl.
+  - repeat split; auto; try fa; kfin. intros F _. apply K1; eauto.
+  - repeat split; auto; try fa; kfin.
 Qed.
 
 Lemma above_k_inv t th s s' r : stk_inv s -> kmx s = None -> above_k t th s = (s', r) -> stk_inv s'.
 Proof.
-  intros I M H. unfold above_k in H. unfold stk_inv in I. rewrite M in I. destruct I as (K0 & K1 & A1 & A2 & A3).
-  destruct (length (els s) <=? th) eqn:E; inversion H; subst; clear H; unfold stk_inv; simpl; rewrite ?K0 in *.
+  intros I M H. unfold above_k in H. unfold stk_inv in I. rewrite M in I. destruct I as (R & [K0 K0'] & K1 & A1 & A2 & A3).
+  destruct (length (els s) <=? th) eqn:E; inversion H; subst; clear H; unfold stk_inv; simpl; rewrite ?K0, ?K0' in *.
   - apply Nat.leb_le in E. repeat split; auto; try fa; kfin.
   - repeat split; auto; try fa; kfin.
 Qed.
 
 Lemma below_k_inv t th s s' r : stk_inv s -> kmx s = None -> below_k t th s = (s', r) -> stk_inv s'.
 Proof.
-  intros I M H. unfold below_k in H. unfold stk_inv in I. rewrite M in I. destruct I as (K0 & K1 & A1 & A2 & A3).
-  destruct (th <=? length (els s)) eqn:E; inversion H; subst; clear H; unfold stk_inv; simpl; rewrite ?K0 in *.
+  intros I M H. unfold below_k in H. unfold stk_inv in I. rewrite M in I. destruct I as (R & [K0 K0'] & K1 & A1 & A2 & A3).
+  destruct (th <=? length (els s)) eqn:E; inversion H; subst; clear H; unfold stk_inv; simpl; rewrite ?K0, ?K0' in *.
   - apply Nat.leb_le in E. repeat split; auto; try fa; kfin.
   - repeat split; auto; try fa; kfin.
 Qed.
@@ -231,56 +275,66 @@ Lemma k_start_inv t o s s' r : is_ext o = false -> stk_inv s -> k_start t o s = 
 Proof.
   intros X I H. destruct o; simpl in X; try discriminate; simpl in H.
   - (* Push *)
-    destruct (mx_free s) eqn:M; simpl in H; [|discriminate]. destruct (free_kchk s I M) as [M1 M2].
-    unfold stk_inv in I. rewrite M1 in I. destruct I as (K0 & K1 & A1 & A2 & A3).
+    destruct (mx_free s) eqn:M; simpl in H; [|discriminate]. destruct (free_kchk s I M) as (M1 & M2 & M3).
+    unfold stk_inv in I. rewrite M1 in I. destruct I as (R & [K0 K0'] & K1 & A1 & A2 & A3).
     inversion H; subst; clear H; unfold stk_inv; simpl. repeat split; auto; try fa; kfin.
   - (* Pop *)
-    destruct (mx_free s) eqn:M; simpl in H; [|discriminate]. destruct (free_kchk s I M) as [M1 M2].
-    unfold stk_inv in I. rewrite M1 in I. destruct I as (K0 & K1 & A1 & A2 & A3).
+    destruct (mx_free s) eqn:M; simpl in H; [|discriminate]. destruct (free_kchk s I M) as (M1 & M2 & M3).
+    unfold stk_inv in I. rewrite M1 in I. destruct I as (R & [K0 K0'] & K1 & A1 & A2 & A3).
     destruct (els s) as [|x rest] eqn:E; inversion H; subst; clear H; unfold stk_inv; simpl; rewrite ?E in *; simpl in *.
     + repeat split; auto; try fa; kfin.
     + repeat split; auto; try fa; kfin.
   - (* PopOrWait *)
-    destruct (mx_free s) eqn:M; simpl in H; [|discriminate]. destruct (free_kchk s I M) as [M1 M2].
+    destruct (mx_free s) eqn:M; simpl in H; [|discriminate]. destruct (free_kchk s I M) as (M1 & M2 & M3).
     inversion H as [H1]. eapply popwait_try_inv; eauto.
-  - destruct (mx_free s) eqn:M; simpl in H; [|discriminate]. destruct (free_kchk s I M) as [M1 M2].
+  - destruct (mx_free s) eqn:M; simpl in H; [|discriminate]. destruct (free_kchk s I M) as (M1 & M2 & M3).
     inversion H as [H1]. eapply below_k_inv; eauto.
-  - destruct (mx_free s) eqn:M; simpl in H; [|discriminate]. destruct (free_kchk s I M) as [M1 M2].
+  - destruct (mx_free s) eqn:M; simpl in H; [|discriminate]. destruct (free_kchk s I M) as (M1 & M2 & M3).
     inversion H as [H1]. eapply above_k_inv; eauto.
   - (* SetFlagLocked *)
-    unfold stk_inv in I. destruct I as (K0 & K1 & A1 & A2 & A3).
+    unfold stk_inv in I. destruct I as (R & K0 & K1 & A1 & A2 & A3).
+    inversion H; subst; clear H; unfold stk_inv; simpl. repeat split; auto; try fa; kfin.
+  - (* Size *)
+    destruct (mx_free s) eqn:M; simpl in H; [|discriminate]. destruct (free_kchk s I M) as (M1 & M2 & M3).
+    unfold stk_inv in I. rewrite M1 in I. destruct I as (R & [K0 K0'] & K1 & A1 & A2 & A3).
     inversion H; subst; clear H; unfold stk_inv; simpl. repeat split; auto; try fa; kfin.
 Qed.
 
 Lemma k_cont_inv t s s' r : stk_inv s -> k_cont t s = Some (s', r) -> stk_inv s'.
 Proof.
   intros I H. unfold k_cont in H.
+  destruct (eget t (kev s)) as [[b|]|] eqn:C0.
+  { (* the callback returns *)
+    assert (R : krel s = false) by (destruct I; auto). rewrite R in H. simpl in H.
+    inversion H as [H1]. eapply popwait_eval_inv; eauto. }
+  { assert (H1 : popwait_read t s = (s', r)) by congruence. eapply popwait_read_inv; eauto. }
   destruct (mem t (kchk s)) eqn:C1.
   { (* Wait: park, release the mutex *)
-    unfold stk_inv in I. destruct I as (K0 & K1 & A1 & A2 & A3).
-    destruct (kmx s) as [u|]; [|rewrite K0 in C1; discriminate]. destruct K0 as [K0 E].
-    rewrite K0 in C1. simpl in C1. rewrite orb_false_r in C1. apply Nat.eqb_eq in C1. subst u.
-    inversion H; subst; clear H; unfold stk_inv; simpl. rewrite K0, E in *. simpl in *. rewrite Nat.eqb_refl.
+    unfold stk_inv in I. destruct I as (R & K0 & K1 & A1 & A2 & A3).
+    destruct (kmx s) as [u|]; [|destruct K0 as [K0 _]; rewrite K0 in C1; discriminate].
+    destruct K0 as [[[K0 K0']|[K0 K0']] E]; rewrite K0 in C1; simpl in C1; [|discriminate].
+    rewrite orb_false_r in C1. apply Nat.eqb_eq in C1. subst u.
+    inversion H; subst; clear H; unfold stk_inv; simpl. rewrite K0, K0', E in *. simpl in *. rewrite Nat.eqb_refl.
     repeat split; auto; try fa; kfin. }
   destruct (mem t (kfs s)) eqn:C2.
-  { destruct (mx_free s) eqn:M; [|discriminate]. destruct (free_kchk s I M) as [M1 M2].
-    unfold stk_inv in I. rewrite M1 in I. destruct I as (K0 & K1 & A1 & A2 & A3).
+  { destruct (mx_free s) eqn:M; [|discriminate]. destruct (free_kchk s I M) as (M1 & M2 & M3).
+    unfold stk_inv in I. rewrite M1 in I. destruct I as (R & [K0 K0'] & K1 & A1 & A2 & A3).
     apply remove1_length in C2.
     inversion H; subst; clear H; unfold stk_inv; simpl. rewrite K0 in *. repeat split; auto; try fa; kfin. }
   destruct (mem t (oa s)) eqn:C3.
-  { unfold stk_inv in I. destruct I as (K0 & K1 & A1 & A2 & A3).
+  { unfold stk_inv in I. destruct I as (R & K0 & K1 & A1 & A2 & A3).
     inversion H; subst; clear H; unfold stk_inv; simpl. repeat split; auto; try fa; kfin. }
   destruct (mem t (ox s)) eqn:C4.
-  { unfold stk_inv in I. destruct I as (K0 & K1 & A1 & A2 & A3).
+  { unfold stk_inv in I. destruct I as (R & K0 & K1 & A1 & A2 & A3).
     inversion H; subst; clear H; unfold stk_inv; simpl. repeat split; auto; try fa; kfin. }
   destruct (nget t (ak s)) as [w|].
-  { destruct (mx_free s) eqn:M; simpl in H; [|discriminate]. destruct (free_kchk s I M) as [M1 M2].
+  { destruct (mx_free s) eqn:M; simpl in H; [|discriminate]. destruct (free_kchk s I M) as (M1 & M2 & M3).
     inversion H as [H1]; clear H.
-    assert (I' : stk_inv (mkStk (els s) (flag s) None (aq s) (ndel t (ak s)) (xq s) (xk s) (oa s) (ox s) (kchk s) (kfs s) (pops s))).
+    assert (I' : stk_inv (mkStk (els s) (flag s) None (aq s) (ndel t (ak s)) (xq s) (xk s) (oa s) (ox s) (kchk s) (kfs s) (pops s) (kev s) (krel s))).
     { unfold stk_inv in *. rewrite M1 in I. simpl. exact I. }
     destruct w; [eapply popwait_try_inv in H1|eapply above_k_inv in H1]; eauto. }
   destruct (nget t (xk s)) as [th|]; [|discriminate].
-  destruct (mx_free s) eqn:M; simpl in H; [|discriminate]. destruct (free_kchk s I M) as [M1 M2].
+  destruct (mx_free s) eqn:M; simpl in H; [|discriminate]. destruct (free_kchk s I M) as (M1 & M2 & M3).
   inversion H as [H1]; clear H. eapply below_k_inv in H1; eauto.
   unfold stk_inv in *. rewrite M1 in I. simpl. exact I.
 Qed.
@@ -324,7 +378,7 @@ Theorem stack_no_lost_wakeup scripts sch :
   (forall t th, In (t, th) (xq s) -> length (els s) < th -> ox s <> []).
 Proof.
   intros X s. assert (I : stk_inv s) by (apply krun_inv; [exact X|apply stk_inv_0]).
-  destruct I as (K0 & K1 & A1 & A2 & A3). rewrite Forall_forall in A1, A2, A3.
+  destruct I as (R & K0 & K1 & A1 & A2 & A3). rewrite Forall_forall in A1, A2, A3.
   repeat split.
   - intros t HIn E. specialize (A1 _ HIn). simpl in A1.
     assert (0 < length (oa s)) by (apply A1; destruct (els s); simpl; [congruence|lia]).
@@ -335,32 +389,129 @@ Proof.
   - intros t th HIn L. specialize (A3 _ HIn L). destruct (ox s); simpl in *; [lia|discriminate].
 Qed.
 
-(* a successful PopOrWait / Pop removes the first element; PopOrWait fails only on an empty stack with a false
-   condition; a size wait returns only on a true condition *)
+(* a successful PopOrWait / Pop removes the first element; on an empty stack PopOrWait calls the wait condition with
+   the mutex held and fails only when it returns false (popwait_eval = the return of the callback); a size wait
+   returns only on a true condition *)
 Theorem stack_wait_sound t s s' r :
   (popwait_try t s = (s', r) ->
      match els s with
      | x :: rest => els s' = rest /\ pops s' = (t, Some x) :: pops s
-     | [] => (r = RDone -> flag s = false /\ pops s' = (t, None) :: pops s) /\ (r <> RDone -> flag s = true /\ pops s' = pops s)
+     | [] => r = RCont /\ pops s' = pops s /\ kev s' = kev s ++ [(t, None)] /\ (krel s = false -> kmx s' = Some t)
      end) /\
+  (popwait_read t s = (s', r) ->
+     r = RCont /\ els s' = els s /\ pops s' = pops s /\ kmx s' = kmx s /\ kev s' = eset t (flag s) (kev s)) /\
+  (forall b, popwait_eval t b s = (s', r) ->
+     els s' = els s /\
+     (r = RDone -> b = false /\ pops s' = (t, None) :: pops s) /\
+     (r <> RDone -> b = true /\ pops s' = pops s /\ kmx s' = Some t /\ kchk s' = kchk s ++ [t])) /\
   (forall th, below_k t th s = (s', RDone) -> length (els s') < th) /\
   (forall th, above_k t th s = (s', RDone) -> th < length (els s')).
 Proof.
-  split; [|split].
+  split; [|split; [|split; [|split]]].
   - unfold popwait_try. destruct (els s) as [|x rest].
-    + destruct (flag s); intros H; inversion H; subst; simpl; split; intros; auto; congruence.
+    + intros H; inversion H; subst; simpl. repeat split; auto. intros R; rewrite R; reflexivity.
     + intros H; inversion H; subst; simpl; auto.
+  - unfold popwait_read. intros H; inversion H; subst; simpl. repeat split; auto.
+  - unfold popwait_eval. intros b. destruct b; intros H; inversion H; subst; simpl; repeat split; auto; congruence.
   - unfold below_k. intros th H. destruct (th <=? length (els s)) eqn:E; inversion H; subst; simpl.
     apply Nat.leb_gt in E. exact E.
   - unfold above_k. intros th H. destruct (length (els s) <=? th) eqn:E; inversion H; subst; simpl.
     apply Nat.leb_gt in E. exact E.
 Qed.
 
+(* While a PopOrWait caller is inside its wait condition (or between the callback and Wait), it holds the stack's mutex:
+   in every reachable state no other thread can start Push / Pop / PopOrWait / a size wait, pass SignalShutdown's
+   critical section, or come back from a Wait; only the flag write in front of SignalShutdown and owed Broadcasts (which
+   touch neither the elements nor the mutex) are enabled.  This is what makes "evaluate the condition" and "park" one
+   critical section although they are separate steps of every schedule. *)
+Definition needs_mutex (o : kop) : bool :=
+  match o with KSetFlagLocked _ | KSetFlagExt _ => false | _ => true end.
+
+Theorem stack_callback_exclusive scripts sch :
+  no_ext scripts ->
+  let s := kst (krun sch (kinit scripts)) in
+  forall t, (emem t (kev s) = true \/ In t (kchk s)) ->
+    kmx s = Some t /\ els s = [] /\ map fst (kev s) ++ kchk s = [t] /\
+    (forall u o, needs_mutex o = true -> k_start u o s = None) /\
+    (forall u, u <> t -> kbusy u s = true -> mem u (oa s) = false -> mem u (ox s) = false -> k_cont u s = None).
+Proof.
+  intros X s t HIn. assert (I : stk_inv s) by (apply krun_inv; [exact X|apply stk_inv_0]).
+  destruct I as (R & K0 & _).
+  destruct (kmx s) as [u|] eqn:M.
+  2:{ destruct K0 as [K0 K0']. rewrite K0, K0' in HIn. destruct HIn as [H|[]]. discriminate. }
+  destruct K0 as [K0 E].
+  assert (u = t /\ map fst (kev s) ++ kchk s = [t]) as [-> L].
+  { destruct K0 as [[K0 K0']|[K0 [w K0']]]; rewrite K0, K0' in *; simpl in *; destruct HIn as [H|H].
+    - discriminate.
+    - destruct H as [H|[]]; subst; auto.
+    - unfold emem in H. simpl in H. destruct (u =? t) eqn:Q; [|discriminate]. apply Nat.eqb_eq in Q. subst; auto.
+    - contradiction. }
+  repeat split; auto.
+  - intros v o N. unfold k_start, mx_free. rewrite M. destruct o; simpl in *; try reflexivity; discriminate.
+  - intros v NE B O1 O2. unfold k_cont, mx_free. rewrite M, O1, O2. simpl.
+    assert (eget v (kev s) = None /\ mem v (kchk s) = false) as [-> ->].
+    { destruct K0 as [[K0 K0']|[K0 [w K0']]]; rewrite K0, K0'; simpl; split; auto.
+      - rewrite orb_false_r. apply Nat.eqb_neq; auto.
+      - destruct (t =? v) eqn:Q; auto. apply Nat.eqb_eq in Q. congruence. }
+    destruct (mem v (kfs s)); auto. destruct (nget v (ak s)); auto. destruct (nget v (xk s)); auto.
+Qed.
+
+(* when nothing can move any more, every parked waiter's condition is false (so "parked for good" implies the condition
+   does not hold: together with stack_wait_sound this is the if-and-only-if of the property, a transient truth aside) *)
+Definition kstuck (s : ksys) : Prop := forall t, kstep s t = None.
+
+Theorem stack_stuck_waiters_false scripts sch :
+  no_ext scripts ->
+  let s := krun sch (kinit scripts) in
+  kstuck s ->
+  (forall t, In (t, 0) (aq (kst s)) -> els (kst s) = [] /\ flag (kst s) = true) /\
+  (forall t th, In (t, S th) (aq (kst s)) -> length (els (kst s)) <= th) /\
+  (forall t th, In (t, th) (xq (kst s)) -> th <= length (els (kst s))).
+Proof.
+  intros X s S. pose proof (stack_no_lost_wakeup scripts sch X) as (N1 & N2 & N3 & N4). fold s in N1, N2, N3, N4.
+  assert (I : stk_inv (kst s)) by (apply krun_inv; [exact X|apply stk_inv_0]).
+  assert (Q : forall u, kbusy u (kst s) = true -> k_cont u (kst s) = None).
+  { intros u B. specialize (S u). unfold kstep, kstep_ev in S. rewrite B in S.
+    destruct (k_cont u (kst s)) as [[? ?]|]; [discriminate|reflexivity]. }
+  assert (nomem : forall l : list tid, (forall u, mem u l = false) -> l = []).
+  { intros l H. destruct l as [|x r]; auto. specialize (H x). simpl in H. rewrite Nat.eqb_refl in H. discriminate. }
+  destruct I as (R & K0 & _).
+  assert (EV : kev (kst s) = []).
+  { destruct (kev (kst s)) as [|[u v] rest] eqn:C; auto. exfalso.
+    assert (G : eget u (kev (kst s)) = Some v) by (rewrite C; simpl; rewrite Nat.eqb_refl; reflexivity).
+    assert (B : kbusy u (kst s) = true) by (unfold kbusy, emem; rewrite G; rewrite ?orb_true_r; reflexivity).
+    specialize (Q u B). unfold k_cont in Q. rewrite G, R in Q. simpl in Q. destruct v; discriminate. }
+  assert (CH : kchk (kst s) = []).
+  { apply nomem. intros u. destruct (mem u (kchk (kst s))) eqn:C; auto. exfalso.
+    assert (B : kbusy u (kst s) = true) by (unfold kbusy; rewrite C; rewrite ?orb_true_r; reflexivity).
+    specialize (Q u B). unfold k_cont in Q. rewrite EV, C in Q. simpl in Q. discriminate. }
+  assert (MF : mx_free (kst s) = true).
+  { unfold mx_free. destruct (kmx (kst s)); auto. destruct K0 as [[[K _]|[_ [w K]]] _]; congruence. }
+  assert (FS : kfs (kst s) = []).
+  { apply nomem. intros u. destruct (mem u (kfs (kst s))) eqn:C; auto. exfalso.
+    assert (B : kbusy u (kst s) = true) by (unfold kbusy; rewrite C; rewrite ?orb_true_r; reflexivity).
+    specialize (Q u B). unfold k_cont in Q. rewrite EV, CH, C, MF in Q. simpl in Q. discriminate. }
+  assert (OA : oa (kst s) = []).
+  { apply nomem. intros u. destruct (mem u (oa (kst s))) eqn:C; auto. exfalso.
+    assert (B : kbusy u (kst s) = true) by (unfold kbusy; rewrite C; rewrite ?orb_true_r; reflexivity).
+    specialize (Q u B). unfold k_cont in Q. rewrite EV, CH, FS, C in Q. simpl in Q. discriminate. }
+  assert (OX : ox (kst s) = []).
+  { apply nomem. intros u. destruct (mem u (ox (kst s))) eqn:C; auto. exfalso.
+    assert (B : kbusy u (kst s) = true) by (unfold kbusy; rewrite C; rewrite ?orb_true_r; reflexivity).
+    specialize (Q u B). unfold k_cont in Q. rewrite EV, CH, FS, OA, C in Q. simpl in Q. discriminate. }
+  split; [|split].
+  - intros t H. split.
+    + destruct (els (kst s)) as [|x r] eqn:E; auto. exfalso. apply (N1 t H); [congruence|exact OA].
+    + destruct (flag (kst s)) eqn:F; auto. exfalso. destruct (N2 t H eq_refl) as [G|G]; [apply G; exact FS|apply G; exact OA].
+  - intros t th H. destruct (le_lt_dec (length (els (kst s))) th) as [L|L]; auto. exfalso. apply (N3 t th H L). exact OA.
+  - intros t th H. destruct (le_lt_dec th (length (els (kst s)))) as [L|L]; auto. exfalso. apply (N4 t th H L). exact OX.
+Qed.
+
 (* D16b, the window of the pinned code: the condition is written and elementAdded broadcast without the stack's mutex
    between PopOrWait's evaluation of the condition and its Wait: the waiter parks on a false condition, nothing is in
    flight, nobody can move. *)
 Definition d16b_scripts : list (list kop) := [[KPopOrWait]; [KSetFlagExt false]].
-Definition d16b_schedule : list tid := [0; 1; 1; 0].
+Definition d16b_schedule : list tid := [0; 0; 0; 1; 1; 0].
 
 Theorem refuted_popOrWait_external :
   let s := krun d16b_schedule (kinit d16b_scripts) in
@@ -373,6 +524,32 @@ Qed.
 
 (* the same schedule with the repaired SignalShutdown: the notifier cannot pass the mutex before the waiter is parked *)
 Example repaired_popOrWait_same_window :
-  let s := krun [0; 1; 1; 0; 1; 1; 0] (kinit [[KPopOrWait]; [KSetFlagLocked false]]) in
+  let s := krun [0; 0; 0; 1; 1; 0; 1; 1; 0; 0; 0] (kinit [[KPopOrWait]; [KSetFlagLocked false]]) in
   pops (kst s) = [(0, None)] /\ aq (kst s) = [] /\ forall t, kstep s t = None.
+Proof. vm_compute. repeat split; auto. intros t. destruct t as [|[|[|t]]]; reflexivity. Qed.
+
+(* The variant of PopOrWait that releases the stack's mutex while it evaluates the wait condition and re-acquires it
+   before Wait without looking at the length again (krel = true; NOT the code): thread 0 finds the stack empty and
+   enters the callback, thread 1 pushes and broadcasts to nobody, thread 0 comes back from the callback and parks:
+   parked on a non-empty stack with nothing in flight, nobody can move - the wake-up is lost, the statement is false. *)
+Definition released_scripts : list (list kop) := [[KPopOrWait]; [KPush 7]].
+Definition released_schedule : list tid := [0; 1; 1; 0; 0; 0].
+
+Theorem refuted_popOrWait_released :
+  let s := krun released_schedule (kinit_rel released_scripts) in
+  In (0, 0) (aq (kst s)) /\ els (kst s) = [7] /\ flag (kst s) = true /\
+  oa (kst s) = [] /\ kfs (kst s) = [] /\ ak (kst s) = [] /\ pops (kst s) = [] /\
+  (forall t, kstep s t = None).
+Proof.
+  vm_compute. repeat split; auto.
+  intros t. destruct t as [|[|[|t]]]; reflexivity.
+Qed.
+
+(* the code on the same schedule: the Push is not enabled while thread 0 is inside its callback (steps 2 and 3 of the
+   schedule do nothing); run on, the element is popped by the waiter *)
+Example held_popOrWait_same_window :
+  let s1 := krun released_schedule (kinit released_scripts) in
+  let s := krun [1; 1; 0; 0] s1 in
+  aq (kst s1) = [(0, 0)] /\ els (kst s1) = [] /\ kscr s1 = [[]; [KPush 7]] /\
+  pops (kst s) = [(0, Some 7)] /\ els (kst s) = [] /\ aq (kst s) = [] /\ forall t, kstep s t = None.
 Proof. vm_compute. repeat split; auto. intros t. destruct t as [|[|[|t]]]; reflexivity. Qed.
